@@ -432,8 +432,56 @@ impl<'a> Walk<'a> {
     }
 }
 
+/// Long reversible histories: a white rook cycles over the first `p` squares of rank 1 (a1, b1, .., back to a1) and a
+/// black rook over the first `q` squares of rank 8, kings on h3 / h6 out of every line; the position recurs every
+/// 2 * lcm(p, q) plies and nothing is ever captured, so halfmove clocks and repetition distances grow past 100 and
+/// 256. With `siblings`, every other legal move is made and taken back before the scripted move of each ply.
+pub fn rook_cycle_script(p: usize, q: usize, plies: usize, siblings: bool) -> (String, Vec<String>) {
+    let seed = "r7/8/7k/8/8/7K/8/R7 w - - 0 1".to_string();
+    let mut pos = Pos::from_fen(&seed).unwrap();
+    let mut ops = vec![];
+    let (mut wi, mut bi) = (0usize, 0usize);
+    let name = |file: usize, rank: char| format!("{}{}", (b'a' + file as u8) as char, rank);
+    for ply in 0..plies {
+        let mv = if ply % 2 == 0 {
+            let from = wi;
+            wi = (wi + 1) % p;
+            format!("{}{}", name(from, '1'), name(wi, '1'))
+        } else {
+            let from = bi;
+            bi = (bi + 1) % q;
+            format!("{}{}", name(from, '8'), name(bi, '8'))
+        };
+        let legal = pos.legal_moves();
+        if siblings {
+            for m in &legal {
+                if m.uci() != mv {
+                    ops.push(m.uci());
+                    ops.push("undo".to_string());
+                }
+            }
+        }
+        let rm = legal.iter().find(|m| m.uci() == mv).unwrap_or_else(|| panic!("rook cycle script: {mv} is not legal in {}", pos.to_fen()));
+        assert!(!rm.capture, "rook cycle script: {mv} captures");
+        pos = pos.apply(rm);
+        assert!(!pos.in_check(pos.side), "rook cycle script: check after {mv}");
+        ops.push(mv);
+    }
+    (seed, ops)
+}
+
+/// Execute one scripted operation list with all monitors of `om` after every operation. Returns the number of nodes.
+pub fn run_script(ctx: &Ctx, om: OpMon, seed_fen: &str, ops: &[String], total: &std::sync::Mutex<Counts>) -> Result<u64, String> {
+    let r = run_ops_list(ctx, om, seed_fen, ops, false, Some(total));
+    r
+}
+
 /// Replay one stored operation list on a fresh game, checking after every operation.
 pub fn replay_ops(ctx: &Ctx, om: OpMon, seed_fen: &str, ops: &[String]) -> Result<(), String> {
+    run_ops_list(ctx, om, seed_fen, ops, true, None).map(|_| ())
+}
+
+fn run_ops_list(ctx: &Ctx, om: OpMon, seed_fen: &str, ops: &[String], print: bool, total: Option<&std::sync::Mutex<Counts>>) -> Result<u64, String> {
     let raw = seed_fen.starts_with("raw:");
     let seed = Pos::from_fen(seed_fen.trim_start_matches("raw:"))?;
     let mut g = if raw { Game::from_fen(seed_fen.trim_start_matches("raw:"))? } else { eng::to_game_with_ep(&seed, seed.ep) };
@@ -473,8 +521,21 @@ pub fn replay_ops(ctx: &Ctx, om: OpMon, seed_fen: &str, ops: &[String]) -> Resul
                 w.push_ref(r.apply(&rm), rm.capture || kind == crate::refchess::Kind::P);
             }
         }
+        w.trace.push(op.clone());
         w.check_node(&g);
-        println!("  after {:<10} fen {}  key {:#018x}", op, g.to_fen(), g.zobrist.0);
+        if matches!(op.as_str(), "undo" | "undo-null") {
+            w.ops.pop();
+            w.ops.pop();
+        }
+        if print {
+            println!("  after {:<10} fen {}  key {:#018x}", op, g.to_fen(), g.zobrist.0);
+        }
     }
-    Ok(())
+    if let Some(t) = total {
+        let mut t = t.lock().unwrap();
+        for (k, v) in &w.c {
+            *t.entry(*k).or_insert(0) += *v;
+        }
+    }
+    Ok(w.nodes)
 }
